@@ -81,6 +81,13 @@ def gen_reaper(rng, threaded, quick):
         case['b_busy'] = [[b0, b1]]
         if b1 < n_it - 10 and rng.random() < 0.5:
             case['b_busy'].append([b1 + 2, n_it + 5])
+    # the work's OWN last handle_events really suspends (slow plugin hook): its task is still unfinished while the connection
+    # goes idle; the sweep must reap it all the same (C20_reaping_ignores_unfinished_tasks)
+    if not threaded and rng.random() < 0.35:
+        evs = [x for x in case['iters'] if x['ev'] is not None]
+        if evs:
+            evs[-1]['ev']['slow'] = True
+            case['own_task_suspended'] = True
     # keep times monotone
     prev = T0
     for x in case['iters']:
